@@ -340,7 +340,7 @@ def run(ctx):
         "sequential histories: one API call at a time (no concurrent client/server threads); CAS-based channel-state accessors are modelled as atomic steps",
         "the order in which a port polls its connections (slot-map key order, to-be-removed list order) is a parameter of the model; theorems hold for every order; the driver keeps every model state consistent with the observations",
         "both ports use BackpressureStrategy::DiscardData (a blocking send into a full buffer cannot return in a sequential history); backpressure/degradation handlers, dynamic (slice) payloads, flatbuffers and the slice-typed Server::receive are not covered",
-        "chunks are identified with the messages they carry: only the NUMBER of chunks in use is modelled (LoanError::OutOfMemory), not addresses; completion-queue capacity and the expired-connection buffer (128) are assumed sufficient",
+        "chunks are identified with the messages they carry: only the NUMBER of chunks in use is modelled (LoanError::OutOfMemory), not addresses; completion-queue capacity and the expired-connection buffer (set to 32 by the harness instead of the default 128: the per-port slot map of that many connection records dominates the run time) are assumed sufficient",
         "extraction: ExtrOcamlBasic only; OCaml driver parses/prints and enumerates polling orders",
     ]
 
